@@ -386,6 +386,34 @@ def empty_arg_program(rng, feats):
     return "\n".join(src) + "\n", "\n".join(flat) + "\n"
 
 
+def misc_macro_program(rng, feats):
+    """(a) a macro with parameters and an EMPTY body: the arguments are consumed, nothing is produced;
+    (b) a macro defined by a macro whose body BEGINS with an invocation of an existing macro handing a
+    parameter on (nothing is expanded while a body is being recorded)"""
+    src = ["@macro TRACE, 1, TX", "@endmacro", "@macro TRACE2, 2, TX, TY", "@endmacro",
+           "@macro PASS, 1, PQ", "@db PQ", "@endmacro",
+           "@macro MKP, 1, NM", "@macro NM, 1, TT", "PASS TT", "@db 7", "@endmacro", "@endmacro"]
+    flat = []
+    for _ in range(rng.randint(1, 3)):
+        r = rng.random()
+        if r < 0.3:
+            src.append(f"TRACE {rng.choice(['{ @db $bb }', '5', '{}', '{ 1, 2 }'])}")
+        elif r < 0.5:
+            src.append("@db 1, TRACE - 2")
+            flat.append("@db 1, 2")
+        elif r < 0.7:
+            src.append("TRACE2 { @db 1 }, 9")
+        else:
+            nm = f"mk{len(src)}"
+            a = rng.choice(["{ 3, 4 }", "5", "{ 1 + 1 }"])
+            src += [f"MKP {nm}", f"{nm} {a}"]
+            flat += ["@db " + a.strip("{} "), "@db 7"]
+        src.append("@db $fc")
+        flat.append("@db $fc")
+        feats["empty_body_or_leading_call"] = feats.get("empty_body_or_leading_call", 0) + 1
+    return "\n".join(src) + "\n", "\n".join(flat) + "\n"
+
+
 def definer_program(rng, feats):
     """a macro with parameters that defines another macro: the outer parameters are substituted in
     the nested definition's name, parameter count position excluded, and body"""
@@ -461,6 +489,7 @@ def run(tier, seed):
         progs.append(deep_definer_program(rng, feats))
         progs.append(multiline_args_program(rng, feats))
         progs.append(empty_arg_program(rng, feats))
+        progs.append(misc_macro_program(rng, feats))
     corner = [
         ("@macro M, 0\n@db 1\n@endmacro\n@macro M, 0\n@db 2\n@endmacro\n", None),   # defining a macro twice is rejected
         ("@macro Z, 0\n@endmacro\nZ\n@db 9\n", "@db 9\n"),
